@@ -44,6 +44,7 @@ fn header(rng: &mut Rng) -> Item {
         0 => None,
         1 => Some(String::new()),
         2 => Some(rng.pick(&["x", "+5", "-1", "4294967295", "4294967296", "007", "2 1", "٣"]).to_string()),
+        3 => Some(rng.pick(&["R8 8.2.33", "D8  21", "R8\t24", "R8 R8", "21 R8", "24.0"]).to_string()),
         _ => Some(rng.pick(&["R8", "8.2.33", "21", "24", "D8"]).to_string()),
     };
     Item::HeaderKV { key, value }
